@@ -326,3 +326,12 @@ def ref_catch(r, names):
         if keys is not None:
             keys.append(r.keys[i])
     return Ref(outs, keys, False, False, has_keys=False, has_items=r.has_keys)
+
+
+def ref_intersperse(rs):
+    order = sorted(((e + 1) / r.n, d, e) for d, r in enumerate(rs) for e in range(r.n))
+    outs = [rs[d].outs[e] for _, d, e in order]
+    allk = all(r.keys is not None for r in rs)
+    keys = [rs[d].keys[e] for _, d, e in order] if allk else None
+    uniq = allk and len(set(keys)) == len(keys)
+    return Ref(outs, keys, all(r.idx for r in rs), True, has_keys=uniq, has_items=all(r.has_items for r in rs))
